@@ -64,8 +64,10 @@ func c03Drivers(thorough bool) []*engine.HDriver {
 
 func init() {
 	engine.Register(&engine.Check{
-		ID:      "C03",
-		Drivers: func(c *engine.Ctx) []*engine.HDriver { return c03Drivers(c.Thorough) },
+		ID:        "C03",
+		NeedsRace: true,
+		Drivers:   func(c *engine.Ctx) []*engine.HDriver { return c03Drivers(c.Thorough) },
+		Scenarios: func(c *engine.Ctx) []*engine.SScenario { return c03Scenarios() },
 		Run: func(c *engine.Ctx) *engine.Report {
 			rep := &engine.Report{Level: "model_checking", Coverage: map[string]any{"exhaustive": true}}
 			for _, d := range c03Drivers(c.Thorough) {
@@ -79,8 +81,18 @@ func init() {
 				rep.Coverage["max_depth"] = st.MaxDepth
 				rep.Coverage["exhaustive"] = st.Closure || !st.BudgetHit
 			}
+			mergeS(c, rep, c03Scenarios(), engine.SPlan{Bounds: boundsFor(c, []int{0, 1, 2}, []int{0, 1, 2, 3}), Race: true, RaceMaxBound: 1, RaceFuncs: []string{"BindingManager"}})
 			rep.Assumptions = []string{"every history starts after three subscriptions (B[2]/1 to both LoadControl servers, A[2]/1 to L[1]) so that a notification to a subscriber is observable; written lists carry isLimitChangeable=true on every element (write protection is C04's subject)"}
 			return rep
 		},
 	})
+}
+
+// c03Scenarios: authorisation follows the registry also when the writer's unbind (or bind) is
+// processed while another peer is torn down: afterwards the write is judged as after a sequential execution.
+func c03Scenarios() []*engine.SScenario {
+	return []*engine.SScenario{
+		teardownScenario("disc:A", []string{"unbind:B:e1f1:L2lc:d"}, []string{"write:B:e1f1:L2lc:limit:ack:2", "write:B:e1f1:L2lc:limit:noack:1"}),
+		teardownScenario("entrm:A:1", []string{"unbind:B:e1f1:L2lc:d", "bind:B:e1f2:L2lc:lc:d"}, []string{"write:B:e1f1:L2lc:limit:ack:2", "write:B:e1f2:L2lc:limit:ack:2"}),
+	}
 }
